@@ -293,9 +293,6 @@ package syntax
 //@   requires self != nil && lexerFresh(lexer)
 //@   modifies *
 //@   ensures [tree-or-error] pg != nil
-//@ func NewLexer
-//@   modifies nothing
-//@   ensures fresh(result) && lexerFresh(result) && result.Source == source
 //@ func NewParser
 //@   modifies nothing
 //@   ensures result != nil && fresh(result) && result.ASTBuilder == astBuilder && lexerFresh(result.Lexer) && fresh(result.Lexer)
